@@ -81,6 +81,7 @@ type GenOpts struct {
 	MaxBiases    int
 	BiasLikeIds  bool // the arbitrary-string ids include names the biases generate themselves (__concealedCriterion__)
 	PlainIds     bool // ids c<n> / a<n> only (default: one request in eight has some arbitrary-string ids)
+	ValueScales  bool // one request in 16 has all values and declared bounds multiplied by 2^-40 or 2^30
 	BigTiers     bool // one request in 16 has 8-20 alternatives and up to 12 criteria, one in 1024 has 65-70 alternatives
 	MinAlts      int  // default 1
 	MaxAlts      int  // default 7
@@ -342,6 +343,26 @@ func (s *genState) genProblem(req M) {
 	known := make([]interface{}, na)
 	for i := range alts {
 		known[i] = alts[i]
+	}
+	if o.ValueScales && g.Rare(4) {
+		// the same problem in another unit: every value and declared bound times 2^-40 or 2^30 (exact in binary)
+		f := 1 / float64(int64(1)<<40)
+		lbl := "valuesTiny"
+		if g.Bool() {
+			f, lbl = float64(int64(1)<<30), "valuesLarge"
+		}
+		for _, a := range alts {
+			cm := a["criteria"].(M)
+			for k := range cm {
+				cm[k] = num(cm[k]) * f
+			}
+		}
+		for _, c := range crits {
+			if vr := asM(c.(M)["valuesRange"]); vr != nil {
+				vr["min"], vr["max"] = num(vr["min"])*f, num(vr["max"])*f
+			}
+		}
+		s.label(lbl)
 	}
 	req["criteria"] = crits
 	req["knownAlternatives"] = known
